@@ -203,6 +203,7 @@ pub fn gen_scenario(rng: &mut Rng, idx: u64, for_schedules: bool) -> Option<Scen
     // (schedule scenarios: always sparse, so that every branch passes the continuity phase without
     // random gap closing and only the collision check separates good from bad strategies)
     let sparse = for_schedules || rng.usize(3) == 0;
+    let bisecting = !sparse && rng.usize(5) == 0;
     Some(Scenario {
         cell,
         from,
@@ -215,10 +216,11 @@ pub fn gen_scenario(rng: &mut Rng, idx: u64, for_schedules: bool) -> Option<Scen
         // a third of the scenarios use check steps larger than the stroke segments (no interpolated
         // poses are generated at all) together with a generous cost limit, so the stroke poses
         // themselves are the only Cartesian waypoints
-        check_step_m: if sparse { rng.range(0.3, 0.6) } else { rng.logu(0.005, 0.05) },
-        check_step_rad: if sparse { rng.range(1.0, 2.0) } else { rng.logu(0.02, 0.2) },
-        max_cost: if sparse { rng.range(25.0, 45.0f64).to_radians() } else { rng.range(1.0, 10.0f64).to_radians() },
-        depth: rng.usize(9),
+        // (a fifth of the dense scenarios forces bisection: coarse check steps against a tight cost limit and enough depth)
+        check_step_m: if sparse { rng.range(0.3, 0.6) } else if bisecting { rng.range(0.03, 0.08) } else { rng.logu(0.005, 0.05) },
+        check_step_rad: if sparse { rng.range(1.0, 2.0) } else if bisecting { rng.range(0.2, 0.5) } else { rng.logu(0.02, 0.2) },
+        max_cost: if sparse { rng.range(25.0, 45.0f64).to_radians() } else if bisecting { rng.range(0.6, 2.0f64).to_radians() } else { rng.range(1.0, 10.0f64).to_radians() },
+        depth: if bisecting { 5 + rng.usize(4) } else { rng.usize(9) },
         // every other free-form scenario configures its own weights (heavier or lighter than the defaults);
         // schedule scenarios keep the defaults (their expected outcome is derived for those)
         coeffs: if !for_schedules && rng.bool(0.5) { std::array::from_fn(|_| rng.logu(0.3, 4.0)) } else { DEFAULT_TRANSITION_COSTS },
@@ -391,6 +393,12 @@ pub fn check_plan(mon: &mut Mon, s: &Scenario, robot: &KinematicsWithShape, path
     while k < path.len() {
         let w = &path[k];
         let is_interp = w.flags.contains(PathFlags::LIN_INTERP);
+        // an interpolated waypoint is not one of the given poses: it carries none of their flags
+        if is_interp && (w.flags.contains(PathFlags::TRACE) || w.flags.contains(PathFlags::PARK) || w.flags.contains(PathFlags::LAND)) {
+            ok = false;
+            mon.violation("grammar:interpolated-waypoint-flagged-as-given-pose", "a LIN_INTERP waypoint also carries the flag of a given pose (LAND / TRACE / PARK)", detail("grammar", json!({"index": k, "flags": flag_names(w.flags)})));
+            break;
+        }
         let is_anchor = !is_interp && (w.flags.contains(PathFlags::TRACE) || w.flags.contains(PathFlags::PARK));
         if anchor + 1 >= anchors.len() {
             ok = false;
